@@ -9,27 +9,34 @@
 (*   backer  who moves stake between report and dispute: the reporter itself or    *)
 (*           one of its selectors                                                  *)
 (*   move    none | undel_part | undel_all | redel_part | redel_all |             *)
-(*           redel_then_undel | valjail (its validator leaves the bonded set)      *)
+(*           redel_then_undel | valjail (its validator leaves the bonded set) |    *)
+(*           undel_two_small_first | undel_two_big_first (two unbonding entries)   *)
 (*   fund    full | parts (completed by a second payer) | short (stops between     *)
 (*           95% and 100%, then completed) | expire (never completed)             *)
 (*   src     balance | bond (fee paid from another reporter's stake)              *)
-(*   result  support | against | invalid | noquorum (nobody but one small voter)   *)
+(*   result  support | against | invalid | noquorum (nobody but one small voter) | *)
+(*           novote (nobody at all)                                                *)
+(*   order   plain | rep_first | sel_first: whether the disputed reporter and its   *)
+(*           selectors vote too, the reporter before or after them                 *)
 (*   back    none | valjail | valunjail: what happens to the backer's validator    *)
 (*           between slashing and the return of stake                              *)
 EXTENDS TLC, Json
 VARIABLE c
 Cats == {1, 2, 3}
 Backers == {"reporter", "selector"}
-Moves == {"none", "undel_part", "undel_all", "redel_part", "redel_all", "redel_then_undel", "valjail"}
+Moves == {"none", "undel_part", "undel_all", "redel_part", "redel_all", "redel_then_undel", "valjail", "undel_two_small_first", "undel_two_big_first"}
 Funds == {"full", "parts", "short", "expire"}
 Srcs == {"balance", "bond"}
-Results == {"support", "against", "invalid", "noquorum"}
+Results == {"support", "against", "invalid", "noquorum", "novote"}
+Orders == {"plain", "rep_first", "sel_first"}
 Backs == {"none", "valjail", "valunjail"}
-Init == \E cat \in Cats, b \in Backers, m \in Moves, f \in Funds, s \in Srcs, r \in Results, k \in Backs :
+Init == \E cat \in Cats, b \in Backers, m \in Moves, f \in Funds, s \in Srcs, r \in Results, k \in Backs, o \in Orders :
           \* an expired dispute has no outcome; stake comes back only for against / invalid
           /\ (f = "expire" => r = "support" /\ k = "none")
-          /\ (k # "none" => r \in {"against", "invalid"})
-          /\ c = [cat |-> cat, backer |-> b, move |-> m, fund |-> f, src |-> s, result |-> r, back |-> k]
+          /\ (k # "none" => r \in {"against", "invalid", "novote"})
+          \* the voting order is varied on the plain staking history only
+          /\ (o # "plain" => m = "none" /\ k = "none" /\ s = "balance" /\ f # "expire" /\ r \notin {"noquorum", "novote"})
+          /\ c = [cat |-> cat, backer |-> b, move |-> m, fund |-> f, src |-> s, result |-> r, back |-> k, order |-> o]
 Next == UNCHANGED c
 Emit == PrintT(<<"CASE", ToJson(c)>>)
 =============================================================================
